@@ -22,14 +22,29 @@ from ops import Ops
 import props as P
 
 
-def confirm(prop, d, module, main, exec_args):
+def props_for(d, prop, w):
+    """The properties a diagnostic counts against, in the context of workload w of the check of `prop`."""
+    d['limit_active'] = d.get('lim', -1) != -1
+    ps = P.props_of(d)
+    if d.get('kind') == 'crashed':
+        ps.add(prop)           # a call that did not return does not satisfy any property about its result
+    if w.get('attribute_all') and d.get('kind') in ('fields', 'valid', 'differ', 'cdiffer', 'crashed'):
+        ps.add(prop)           # a workload built for this property alone (e.g. the C11 byte sweep)
+    return ps
+
+
+def confirm(prop, d, w):
     """Re-run the execution that produced a diagnostic in isolation; keep it only if a
     diagnostic of the same kind for the same property shows up again."""
+    module, main, exec_args = w.get('module', 'TraceUrl'), w.get('main', 'exec_main.cpp'), w.get('exec_args', ())
     r = vlib.run_trace_check(d['exec_ops'], module=module, config=d.get('config', 'default'), tag='confirm_' + prop,
                              nshards=1, exec_args=exec_args, main=main)
+    if d.get('kind') == 'config-differ':
+        r0 = vlib.run_trace_check(d['exec_ops'], module=module, config=d['config0'], tag='confirm0_' + prop,
+                                  nshards=1, exec_args=exec_args, main=main)
+        return bool(vlib.diff_traces(r0['work'], r['work'], d['config0'], d['config'])['diags'])
     for d2 in r['diags']:
-        d2['limit_active'] = d2.get('lim', -1) != -1
-        if d2.get('kind') == d.get('kind') and prop in P.props_of(d2):
+        if d2.get('kind') == d.get('kind') and prop in props_for(d2, prop, w):
             return True
     return False
 
@@ -75,14 +90,24 @@ def run_property(prop, tier, seed, replay=None):
             w['gen'](ops, rng, n)
             lines = ops.lines
         configs = w.get('configs_' + tier, w.get('configs', ['default']))
+        works = {}
         for config in configs:
             if not vlib.config_runnable(config):
                 cov['configs'].append(config + ':skipped(cpu)')
                 continue
             if config not in [c.split(':')[0] for c in cov['configs']]:
                 cov['configs'].append(config)
-            r = vlib.run_trace_check(lines, module=w.get('module', 'TraceUrl'), config=config, tag='%s_%s' % (prop, w['name']),
-                                     exec_args=w.get('exec_args', ()), main=w.get('main', 'exec_main.cpp'))
+            r = vlib.run_trace_check(lines, module=w.get('module', 'TraceUrl'), config=config,
+                                     tag='%s_%s_%s' % (prop, w['name'], config),
+                                     exec_args=w.get('exec_args', ()), main=w.get('main', 'exec_main.cpp'),
+                                     validate=not (w.get('differential') and config != configs[0]))
+            works[config] = r['work']
+            if w.get('differential') and config != configs[0] and configs[0] in works:
+                # C18: the same operations on another build configuration must give a byte-identical trace
+                dd = vlib.diff_traces(works[configs[0]], r['work'], configs[0], config)
+                cov['config_pairs_compared'] = cov.get('config_pairs_compared', 0) + 1
+                cov['config_lines_compared'] = cov.get('config_lines_compared', 0) + dd['lines']
+                r['diags'] = r['diags'] + dd['diags']
             cov['states'] += r['distinct']
             cov['transitions'] += r['states']
             cov['traces_validated_against_impl'] += r['execs']
@@ -95,10 +120,7 @@ def run_property(prop, tier, seed, replay=None):
                 cov['samples'] += r['samples'][:2]
             distinct |= r.get('distinct_keys', set())
             for d in r['diags']:
-                d['limit_active'] = d.get('lim', -1) != -1
-                ps = P.props_of(d)
-                if w.get('attribute_all') and d.get('kind') in ('fields', 'valid', 'differ', 'cdiffer', 'crashed'):
-                    ps.add(prop)       # a workload built for this property alone (e.g. the C11 byte sweep)
+                ps = props_for(d, prop, w)
                 if 'SPEC' in ps:
                     spec_problems.append('spec self-check failed: ' + vlib.describe(d))
                     continue
@@ -111,7 +133,7 @@ def run_property(prop, tier, seed, replay=None):
                     cov['known_findings'] += 1
                     continue
                 if len(violations) < 8:
-                    if replay or confirm(prop, d, w.get('module', 'TraceUrl'), w.get('main', 'exec_main.cpp'), w.get('exec_args', ())):
+                    if replay or confirm(prop, d, w):
                         violations.append(d)
                     else:
                         spec_problems.append('non-reproducible diagnostic (not reported): ' + vlib.describe(d))
@@ -119,7 +141,8 @@ def run_property(prop, tier, seed, replay=None):
             break
         # release the shard files of this workload
         import shutil
-        shutil.rmtree(r['work'], ignore_errors=True)
+        for wd in works.values():
+            shutil.rmtree(wd, ignore_errors=True)
 
     cov['distinct_nontrivial'] = max(len(distinct), cov['distinct_nontrivial'])
     cov['rule'] = spec.get('rule', '')
